@@ -39,7 +39,7 @@ func (c *checkCtx) findingBySignature(label, sig string) (finding, bool) {
 // through the real entry point built from /repo's working tree.
 func (c *checkCtx) writeRegoReplay(o regosym.Outcome) string {
 	sum := sha1.Sum([]byte(o.Profile + o.Data + o.Label))
-	dir := filepath.Join(verifDir(), "replays", c.spec.ID, fmt.Sprintf("%x", sum[:6]))
+	dir := filepath.Join(outDir(), "replays", c.spec.ID, fmt.Sprintf("%x", sum[:6]))
 	os.MkdirAll(dir, 0o755)
 	kind := "rego-verdict"
 	if strings.HasPrefix(o.Label, "C12.") || strings.HasPrefix(o.Label, "C14.location") || strings.HasPrefix(o.Label, "C13.") || strings.HasPrefix(o.Label, "C03.") {
